@@ -179,7 +179,7 @@ theorem fragmentsOnCompositeTypes_iff (s : Schema) (d : QueryDoc) (evs : List Ev
     constructor
     · rintro tc ⟨f, hf, rfl⟩
       rw [← hfrag] at hf
-      obtain ⟨e, he, dfn, hp⟩ := mem_fragEvents.1 hf
+      obtain ⟨e, he, dfn, hp⟩ := mem_fragDefEvents.1 hf
       have hd : dfn = s.type? f.typeCond := by
         have := walkDoc_all (P := fun p => match p with | .fragment f dfn => dfn = s.view.type? f.typeCond | _ => True)
           (Q := fun _ => True)
@@ -249,7 +249,7 @@ theorem fragmentsOnCompositeTypes_iff (s : Schema) (d : QueryDoc) (evs : List Ev
     · rename_i f t hp
       have hf : f ∈ d.frags := by
         rw [← hfrag]
-        exact mem_fragEvents.2 ⟨e, he, _, hp⟩
+        exact mem_fragDefEvents.2 ⟨e, he, _, hp⟩
       have := h1 f.typeCond ⟨f, hf, rfl⟩
       have hd : some t = s.type? f.typeCond := by
         have := walkDoc_all (P := fun p => match p with | .fragment f dfn => dfn = s.view.type? f.typeCond | _ => True)
